@@ -540,6 +540,142 @@ def strBufRun (c : StrBufCfg) (s : StrBufState) : List Nat → Outcome StrBufSta
 
 def strBufInit (c : StrBufCfg) : StrBufState := ⟨0, c.room, true⟩
 
+/-! ## INCLUDE: `SCAN_buffers[SCAN_NESTING_DEPTH]` (lexact.c `SCANinclude_file`, `SCANpush_buffer`) -/
+
+structure ScanCfg where
+  cap : Nat                -- SCAN_NESTING_DEPTH
+  guard : Option Nat       -- `some k`: the directive is refused (diagnostic) when `SCAN_current_buffer + k >= cap`
+  deriving Repr
+
+inductive ScanEv where
+  | includeFound      -- `INCLUDE 'file';` whose file can be opened
+  | includeMissing    -- fopen fails: diagnostic, nothing pushed
+  | newParse          -- `SCAN_lex_init`: another file is parsed from the start (schema found through EXPRESS_PATH)
+  deriving Repr, DecidableEq
+
+/-- `i` = SCAN_current_buffer; with the perplex scanner nothing ever pops a buffer -/
+def scanStep (c : ScanCfg) (i : Nat) : ScanEv → Outcome Nat
+  | .includeMissing => .ok i
+  | .newParse => .ok 0
+  | .includeFound =>
+    let refused := match c.guard with | some k => decide (c.cap ≤ i + k) | none => false
+    if refused then .ok i else if i + 1 < c.cap then .ok (i + 1) else .overflow (i + 1)
+
+def scanRun (c : ScanCfg) (i : Nat) : List ScanEv → Outcome Nat
+  | [] => .ok i
+  | e :: rest =>
+    match scanStep c i e with
+    | .ok j => scanRun c j rest
+    | .overflow k => .overflow k
+    | .underflow => .underflow
+    | .reject => .reject
+
+/-! ## nested comments: `open_comment[MAX_NESTED_COMMENTS]` (expscan.l) -/
+
+structure CommentCfg where
+  cap : Nat
+  guarded : Bool      -- `if (nesting_level < MAX_NESTED_COMMENTS)` around the stores
+  deriving Repr
+
+inductive CommentEv where
+  | open_ | close
+  deriving Repr, DecidableEq
+
+/-- state = nesting_level; `(*` stores into `open_comment[nesting_level]` -/
+def commentStep (c : CommentCfg) (lvl : Nat) : CommentEv → Outcome Nat
+  | .open_ => if c.guarded && decide (c.cap ≤ lvl) then .ok (lvl + 1)
+              else if lvl < c.cap then .ok (lvl + 1) else .overflow lvl
+  | .close => .ok (lvl - 1)      -- only scanned inside a comment (lvl ≥ 1); `*)` outside is a diagnostic
+
+def commentRun (c : CommentCfg) (lvl : Nat) : List CommentEv → Outcome Nat
+  | [] => .ok lvl
+  | e :: rest =>
+    match commentStep c lvl e with
+    | .ok j => commentRun c j rest
+    | .overflow k => .overflow k
+    | .underflow => .underflow
+    | .reject => .reject
+
+/-! ## schema files looked for on disk (express.c `EXPRESS_PATHinit`, `EXPRESSfind_schema`) -/
+
+structure SchemaFileCfg where
+  lowerCap : Nat           -- `char lower[MAX_SCHEMA_FILENAME_SIZE]`
+  fullCap : Nat            -- `Dir.full[MAX_SCHEMA_FILENAME_SIZE]`
+  nameGuard : Bool         -- `if( strlen( name ) >= sizeof( lower ) ) return 0;`
+  boundedAppend : Bool     -- `snprintf( dir->leaf, sizeof( dir->full ) - ( dir->leaf - dir->full ), "%s.exp", lower )`
+  ext : Nat                -- strlen( ".exp" )
+  dirGuard : Option Nat    -- `some k`: an EXPRESS_PATH entry with `length + k > sizeof( dir->full )` is skipped
+  deriving Repr
+
+/-- one EXPRESS_PATH entry of `len` characters (not ending in '/'): `sprintf( dir->full, "%s/", start )`; `ok leaf` -/
+def pathEntryOut (c : SchemaFileCfg) (len : Nat) : Outcome Nat :=
+  let skipped := match c.dirGuard with | some k => decide (c.fullCap < len + k) | none => false
+  if skipped then .reject else if len + 2 ≤ c.fullCap then .ok (len + 1) else .overflow c.fullCap
+
+/-- `EXPRESSfind_schema( name )` with `dir->leaf = dir->full + leaf`: bytes stored into `lower` and `full` -/
+def findSchemaOut (c : SchemaFileCfg) (leaf nameLen : Nat) : Outcome Nat :=
+  if c.nameGuard && decide (c.lowerCap ≤ nameLen) then .reject
+  else if c.lowerCap < nameLen + 1 then .overflow c.lowerCap
+  else if c.boundedAppend then
+    (if c.fullCap < leaf then .overflow c.fullCap      -- negative room
+     else .ok (leaf + min (nameLen + c.ext + 1) (c.fullCap - leaf)))
+  else if leaf + nameLen + c.ext + 1 ≤ c.fullCap then .ok (leaf + nameLen + c.ext + 1) else .overflow c.fullCap
+
+/-! ## exp2cxx `format_for_stringout` into the buffer `ENTITYincode_print` allocates -/
+
+structure EscapeCfg where
+  mul : Nat        -- malloc( mul * strlen( tmp ) + add )
+  add : Nat
+  perChar : Nat    -- most bytes the loop stores for one input character
+  deriving Repr
+
+/-- a text of `len` characters, `specials` of them backslashes or newlines -/
+def escapeOut (c : EscapeCfg) (len specials : Nat) : Outcome Nat :=
+  let written := len + (c.perChar - 1) * specials + 1
+  if written ≤ c.mul * len + c.add then .ok (written - 1) else .overflow (c.mul * len + c.add)
+
+/-! ## exp2python `EXPRto_python`: function call translated into a malloc'ed buffer -/
+
+structure PyCallCfg where
+  initial : Nat            -- malloc( BIGBUFSIZ )
+  ensure : Option Nat      -- `some e`: before an argument of t characters is appended the buffer is grown to hold used + t + e
+  sep : Nat                -- strlen( ", " )
+  close : Nat              -- strlen( ")" )
+  deriving Repr
+
+structure PyCallState where
+  used : Nat
+  cap : Nat
+  first : Bool
+  deriving Repr, DecidableEq
+
+def pyCallStart (c : PyCallCfg) (nameLen : Nat) : PyCallState :=
+  ⟨min (nameLen + 1) (c.initial - 1), c.initial, true⟩       -- snprintf( buf, bufsize, "%s(", name )
+
+def pyCallArg (c : PyCallCfg) (s : PyCallState) (t : Nat) : Outcome PyCallState :=
+  let cap := match c.ensure with
+    | some e => if s.cap < s.used + t + e then s.used + t + e + c.initial else s.cap
+    | none => s.cap
+  let used := s.used + (if s.first then 0 else c.sep) + t
+  if used + 1 ≤ cap then .ok ⟨used, cap, false⟩ else .overflow cap
+
+def pyCallArgs (c : PyCallCfg) (s : PyCallState) : List Nat → Outcome PyCallState
+  | [] => .ok s
+  | t :: rest =>
+    match pyCallArg c s t with
+    | .ok s' => pyCallArgs c s' rest
+    | .overflow k => .overflow k
+    | .underflow => .underflow
+    | .reject => .reject
+
+/-- the whole call: name, arguments, closing parenthesis and terminator -/
+def pyCallOut (c : PyCallCfg) (nameLen : Nat) (args : List Nat) : Outcome Nat :=
+  match pyCallArgs c (pyCallStart c nameLen) args with
+  | .ok s => if s.used + c.close + 1 ≤ s.cap then .ok (s.used + c.close) else .overflow s.cap
+  | .overflow k => .overflow k
+  | .underflow => .underflow
+  | .reject => .reject
+
 /-! ## interface resolution: `SCOPEfind_for_rename` over the USE graph -/
 
 mutual
